@@ -135,6 +135,18 @@ def subclasscheck(t1, t2):
     if not isinstance(o2, type):
         o2 = None
 
+    if (
+        o1 is type
+        and o2 is None
+        and isinstance(t2, type)
+        and t2 is not type
+        and issubclass(t2, type)
+    ):
+        # type[C] against a metaclass: C is an instance of it
+        args1 = get_args(t1)
+        if len(args1) == 1:
+            return isinstance(args1[0], t2)
+
     if o1 or o2:
         o1 = o1 or t1
         o2 = o2 or t2
